@@ -113,6 +113,7 @@ def parseOp (w : List String) : Option Op :=
   | ["newgroup", p] => do pure (.newGroup (← optNat p))
   | ["grouplayers", xs, p] => do pure (.groupLayers (← natList xs) (← optNat p))
   | ["newlayer", p, bx] => do pure (.newLayer (← optNat p) (← parseBox bx))
+  | ["newdoc", bx] => do pure (.newDoc (← parseBox bx))
   | ["vis", x, v] => do pure (.setVisible (← x.toNat?) (← parseBool v))
   | ["left", x, v] => do pure (.setLeft (← x.toNat?) (← v.toInt?))
   | ["top", x, v] => do pure (.setTop (← x.toNat?) (← v.toInt?))
